@@ -190,6 +190,19 @@ directive @transform(op: String!) repeatable on FIELD
                             let field_node = field.node;
                             let field_name = Arc::from(field_node.name.node.to_string());
 
+                            // Types with too many nested list levels cannot be represented,
+                            // and must be reported here rather than panic further below.
+                            let unrepresentable_type = std::iter::once(&field_node.ty.node)
+                                .chain(field_node.arguments.iter().map(|arg| &arg.node.ty.node))
+                                .find(|ty| !Type::is_representable(ty));
+                            if let Some(ty) = unrepresentable_type {
+                                return Err(InvalidSchemaError::TooManyNestedLists(
+                                    type_name.to_string(),
+                                    field_node.name.node.to_string(),
+                                    ty.to_string(),
+                                ));
+                            }
+
                             match fields
                                 .insert_or_error((type_name.clone(), field_name), field_node)
                             {
